@@ -82,11 +82,15 @@ Fixpoint read_all (s : lim_st) (calls : list (Z * Z)) (acc : Z) : all_res :=
   end.
 
 (* bytes a request makes the server read through Content-Encoding ce: the body itself, or what the limiter lets through *)
-Definition bytes_read_limited (ce : string) (body_len decoded_len limit : Z) : Z :=
+Definition bytes_read_limited_v3 (ce : string) (body_len decoded_len limit : Z) : Z :=      (* after 3b40c0c: plain bodies unlimited *)
   if String.eqb ce "" then body_len else Z.min decoded_len limit.
+(* fourth session: a body without Content-Encoding goes through the limiter as well *)
+Definition bytes_read_limited (ce : string) (body_len decoded_len limit : Z) : Z :=
+  Z.min (if String.eqb ce "" then body_len else decoded_len) limit.
 
 (* ---- the source of the limiter, as regenerated by translate/gen_goroutines_writer (framing.go) ---- *)
 Definition lim_wrap_model : string := "readColser{helpers.LimitDecoded(reader)}".
+Definition lim_wrap_plain_model : string := "readColser{helpers.LimitDecoded(r.Body)}".      (* case "": the body itself *)
 Definition lim_new_model : string := "&limitedDecoded{r: r, left: int64(pbPool.limit)}".
 Definition lim_read_model : list string := [
   "if l.left < 0 { return 0, errDecodedTooLong }";
@@ -97,8 +101,13 @@ Definition lim_read_model : list string := [
   "return n, err"].
 Definition err_decoded_too_long_model : string := "custom_errors.New400Error(""decompressed request too long"")".
 Definition set_global_limit_pb_model : string := "limit / 2".
-(* every Content-Encoding the middleware accepts other than "" replaces r.Body, and only by a LimitDecoded reader *)
+(* every Content-Encoding the middleware accepts -- "" (none) included since the fourth session -- replaces r.Body, and only
+   by a LimitDecoded reader: around the decompressor, or around the body itself *)
 Definition ce_all_limited (accepted : list string) (wraps : list (string * string)) : bool :=
+  forallb (fun ce => existsb (fun w => String.eqb (fst w) ce) wraps) accepted
+  && forallb (fun w => String.eqb (snd w) (if String.eqb (fst w) "" then lim_wrap_plain_model else lim_wrap_model)) wraps.
+(* the source after 3b40c0c: case "" did nothing *)
+Definition ce_all_limited_v3 (accepted : list string) (wraps : list (string * string)) : bool :=
   forallb (fun ce => String.eqb ce "" || existsb (fun w => String.eqb (fst w) ce) wraps) accepted
   && forallb (fun w => String.eqb (snd w) lim_wrap_model) wraps.
 Definition limiter_source_ok (accepted : list string) (wraps : list (string * string)) (new : string) (read : list string)
@@ -143,7 +152,9 @@ Record limcase := {
   lm_limit : Z;                   (* pbPool.limit the harness configured *)
   lm_obs : obs
 }.
-Definition lim_over (c : limcase) : bool := negb (String.eqb (lm_ce c) "") && (lm_limit c <? lm_decoded c).
+(* lm_decoded: the bytes of the payload before Content-Encoding -- the body itself when there is none *)
+Definition lim_over (c : limcase) : bool := (lm_limit c <? lm_decoded c).
+Definition lim_over_v3 (c : limcase) : bool := negb (String.eqb (lm_ce c) "") && (lm_limit c <? lm_decoded c).
 Definition lim_predict (c : limcase) : expect := if lim_over c then AnyError else Exact C2xx.
 Definition lim_spec_ok (c : limcase) : bool :=
   let ob := lm_obs c in
